@@ -130,6 +130,28 @@ def adversarial(rng: random.Random, n: int, start_tid: int):
     return scs
 
 
+def event_aligned_cards(rng: random.Random, n: int, start_tid: int):
+    """Single-step cards (step = range: the muzzle row and the row at the range) whose range row is recorded in the very
+    integration step in which the trajectory comes back through the sight line (located by a dry run with extra data): the row
+    carries the event's flag bits as well - it is still the range row, and nothing is appended after it."""
+    scs = []
+    for i in range(n):
+        p = shots.gen_shot(rng, winds=0, look=0.0)
+        p["sight_in"] = rng.choice([1.5, 2.0, 3.0])
+        p["mv_fps"] = rng.choice([2600.0, 2900.0])
+        ms = rng.choice([1.0, 2.0])
+        base = {"shot": p, "cfg": {"max_calc_step_size_feet": ms}, "tid": 0, "kind": "dry", "range_ft": 450.0, "unit": "Foot",
+                "step_ft": 150.0, "extra": True, "zero_yd": 100}
+        dry = scen.run_fire(base, 0)
+        evs = [r for r in dry["rows"] if int(r.flag) & 2 and not int(r.flag) & 8]
+        if not evs:
+            continue
+        xe = evs[0].distance.raw_value / 12.0
+        R = xe - 0.3 * (ms / 2.0)
+        scs.append(dict(base, tid=start_tid + i, kind="single_step_card_ending_in_the_event_step", range_ft=R, step_ft=R, extra=False))
+    return scs
+
+
 def apalache_inductive(chk: core.Check) -> None:
     """Unbounded design-level safety of the recorder (spec/RecorderInd.tla) as an inductive invariant with Apalache
     (thorough tier only, under a timeout; if Apalache stalls the TLC result on bounded ranges stands)."""
@@ -176,6 +198,7 @@ def run(chk: core.Check, replay=None) -> None:
     scs = scenarios(rng, 400 if thorough else 36, thorough)
     scs += adversarial(rng, 120 if thorough else 12, len(scs) + 1)
     scs += long_cards(rng, 40 if thorough else 4, 100000)
+    scs += event_aligned_cards(rng, 12 if thorough else 3, 200000)
     outs = scen.run_batch(scs)
     for o in outs:
         sc, summ = o["sc"], o.get("summ", {})
@@ -194,6 +217,8 @@ def run(chk: core.Check, replay=None) -> None:
                 chk.stratum("dividing_step")
             if sc.get("time_step"):
                 chk.stratum("time_step")
+            if sc["kind"] == "single_step_card_ending_in_the_event_step" and any(int(r.flag) & 2 and int(r.flag) & 8 for r in o["rows"]):
+                chk.stratum("single_step_card_ending_in_the_event_step")
             if sc["kind"] == "adversarial_range":
                 chk.stratum("adversarial_range_" + str(len(sc["shot"]["winds"])) + "_segments")
                 if sc.get("sum_above"):
@@ -206,7 +231,7 @@ def run(chk: core.Check, replay=None) -> None:
         chk.sample({"scenario": o["sc"], "outcome": o["outcome"], "rows": len(o["rows"]), "projected_lines": o["summ"].get("lines"),
                     "first_lines": o["lines"][:3]})
     chk.sample({"tlc_behaviour": {k: v for k, v in behs[0].items() if k != "consts"}})
-    chk.require_strata(["long_card_in_round_metric_numbers", "adversarial_default_step_sum_of_steps_above_range", "adversarial_range_1_segments", "adversarial_range_2_segments", "done", "tail_wind", "default_step", "non_dividing_step", "dividing_step", "time_step",
+    chk.require_strata(["single_step_card_ending_in_the_event_step", "long_card_in_round_metric_numbers", "adversarial_default_step_sum_of_steps_above_range", "adversarial_range_1_segments", "adversarial_range_2_segments", "done", "tail_wind", "default_step", "non_dividing_step", "dividing_step", "time_step",
                         "obj_flag_R", "obj_interpolated_row"])
     chk.exhaustive = False
     chk.rule.append("design: Integrator.tla exhaustively on the listed constant sets; spec->code: distinct TLC-simulated controller "
